@@ -25,6 +25,10 @@ type c08Case struct {
 	Ops    []string          `json:"ops"`
 	Delim  string            `json:"delim"`
 	Values map[string]string `json:"values"`
+	// optional second file, included by the first and compiled with -r: a scope of
+	// the SAME name with its own prefix and operations
+	IncPrefix []PrefixTok `json:"inc_prefix,omitempty"`
+	IncOps    []string    `json:"inc_ops,omitempty"`
 }
 
 var c08Delims = []string{".", ".", "/", "-", "_", ":", "|", ".."}
@@ -40,7 +44,13 @@ func genC08(t *rapid.T) c08Case {
 		c.Ops = append(c.Ops, cfg.genName(t, on, "op", []string{"pascal", "title", "camel", "lower", "snake", "Initialism"}))
 	}
 	c.Delim = rapid.SampledFrom(c08Delims).Draw(t, "delim")
-	for _, p := range c.Prefix {
+	if rapid.IntRange(0, 2).Draw(t, "twofiles") == 0 {
+		c.IncPrefix = cfg.GenPrefix(t)
+		for i, k := 0, rapid.IntRange(1, 2).Draw(t, "nincops"); i < k; i++ {
+			c.IncOps = append(c.IncOps, "Inc"+cfg.genName(t, on, "incop", []string{"pascal", "title"}))
+		}
+	}
+	for _, p := range append(append([]PrefixTok{}, c.Prefix...), c.IncPrefix...) {
 		if p.Var {
 			c.Values[p.Text] = rapid.SampledFrom([]string{"alice", "b0b", "X", "tenant-7", "eu_west", "a b"}).Draw(t, "value")
 		}
@@ -49,7 +59,22 @@ func genC08(t *rapid.T) c08Case {
 }
 
 func (c c08Case) program() *Program {
+	var files []*File
+	if len(c.IncOps) > 0 {
+		// without distinct namespaces both files would emit <Scope>Publisher into the same directory
+		inc := &File{Name: "inc_topics_def", Namespaces: []Namespace{{"*", "incpkg"}}}
+		d := &Decl{Kind: "scope", Name: c.Scope, Prefix: c.IncPrefix}
+		for _, o := range c.IncOps {
+			d.Ops = append(d.Ops, Op{Name: o, Type: &Type{Kind: "base", Name: "string"}})
+		}
+		inc.Decls = append(inc.Decls, d)
+		files = append(files, inc)
+	}
 	f := &File{Name: "topics_def"}
+	if len(files) > 0 {
+		f.Includes = []int{0}
+		f.Namespaces = []Namespace{{"*", "rootpkg"}}
+	}
 	f.Decls = append(f.Decls, &Decl{Kind: "struct", Name: "Evt", Fields: []Field{{ID: 1, Name: "v", Type: &Type{Kind: "base", Name: "string"}}}})
 	d := &Decl{Kind: "scope", Name: c.Scope, Prefix: c.Prefix}
 	for i, o := range c.Ops {
@@ -60,7 +85,14 @@ func (c c08Case) program() *Program {
 		d.Ops = append(d.Ops, Op{Name: o, Type: ty})
 	}
 	f.Decls = append(f.Decls, d)
-	return &Program{Files: []*File{f}}
+	for _, dd := range f.Decls {
+		for i := range dd.Ops {
+			if dd.Ops[i].Type.Kind == "ref" {
+				dd.Ops[i].Type.File = len(files)
+			}
+		}
+	}
+	return &Program{Files: append(files, f)}
 }
 
 func classifyC08(c c08Case) ev.Class {
@@ -71,6 +103,9 @@ func classifyC08(c c08Case) ev.Class {
 		}
 	}
 	labels := []string{"delim=" + c.Delim, fmt.Sprintf("vars=%d", vars), fmt.Sprintf("tokens=%d", len(c.Prefix))}
+	if len(c.IncOps) > 0 {
+		labels = append(labels, "same-scope-name-in-included-file")
+	}
 	capital := c.Scope[0] >= 'A' && c.Scope[0] <= 'Z'
 	if !capital {
 		labels = append(labels, "scope-not-capitalised")
@@ -246,9 +281,11 @@ func evalDart(expr string, env map[string]string) (string, error) {
 	return b.String(), nil
 }
 
-func (c c08Case) expected(title bool) string {
+func (c c08Case) expected(title bool) string { return c.expectedFor(c.Prefix, title) }
+
+func (c c08Case) expectedFor(prefixToks []PrefixTok, title bool) string {
 	var parts []string
-	for _, p := range c.Prefix {
+	for _, p := range prefixToks {
 		if p.Var {
 			parts = append(parts, c.Values[p.Text])
 		} else {
@@ -350,7 +387,7 @@ func checkC08Inner(c c08Case) *ev.Failure {
 				lr.topics[opName] = append(lr.topics[opName], topic)
 			}
 		}
-		for _, op := range c.Ops {
+		for _, op := range append(append([]string{}, c.Ops...), c.IncOps...) {
 			want := 2
 			if lang == "py" {
 				want = 1 // vanilla Python generates publishers only
@@ -362,7 +399,11 @@ func checkC08Inner(c c08Case) *ev.Failure {
 		results = append(results, lr)
 	}
 	// (i) publisher == subscriber within each language; (ii) all languages agree; (iii) composition
-	for _, op := range c.Ops {
+	incOp := map[string]bool{}
+	for _, o := range c.IncOps {
+		incOp[o] = true
+	}
+	for _, op := range append(append([]string{}, c.Ops...), c.IncOps...) {
 		ref := ""
 		refLang := ""
 		for _, lr := range results {
@@ -379,7 +420,11 @@ func checkC08Inner(c c08Case) *ev.Failure {
 		}
 		okc := false
 		for _, title := range []bool{false, true} {
-			e := strings.SplitN(c.expected(title), "|", 2)
+			toks := c.Prefix
+			if incOp[op] {
+				toks = c.IncPrefix
+			}
+			e := strings.SplitN(c.expectedFor(toks, title), "|", 2)
 			parts := []string{}
 			if e[0] != "" {
 				parts = append(parts, e[0])
